@@ -160,12 +160,15 @@ bool BufferedFd::send(const void *data_ptr, size_t data_size)
             sp_write_event_->enable();  //! 等待可写事件
 
         } else {    //! 否则就是出了错
-            if (errno == EAGAIN) {  //! 文件操作繁忙
+            if (errno == EAGAIN || errno == EINTR || errno == ENOBUFS || errno == ENOMEM) {
+                //! 文件操作繁忙, or another transient condition: nothing was written and nothing is wrong with fd_,
+                //! the data is kept and the write event tries again
                 send_buff_.append(data_ptr, data_size);
                 sp_write_event_->enable();  //! 等待可写事件
             } else {
-                LogWarn("send fail, drop data. errno:%d, %s", errno, strerror(errno));
-                //!TODO
+                //! the data is not accepted and the caller is told so
+                LogWarn("send fail, errno:%d, %s", errno, strerror(errno));
+                return false;
             }
         }
     }
